@@ -66,6 +66,9 @@ type c08Case struct {
 	// PartSigned (placement both, N>1): 1 = only the first assertion carries its own signature,
 	// 2 = only the last (the Response signature covers them all)
 	PartSigned int `json:"part_signed,omitempty"`
+	// AllowMissing: the SP is configured with AllowMissingAttributes and the first assertion has
+	// no AttributeStatement at all (a conforming IdP may send none)
+	AllowMissing bool `json:"allow_missing_attributes,omitempty"`
 }
 
 func c08Key(alg int) string {
@@ -107,15 +110,19 @@ func c08Spec(c c08Case) idp.ResponseSpec {
 			{Name: "role", NameFormat: "urn:oasis:names:tc:SAML:2.0:attrname-format:uri", FriendlyName: "Role", Values: []string{"guest"}},
 		}}
 	}
-	if len(a.AttrStatements[0]) > 0 && len(a.AttrStatements[0][0].Values) > 0 {
+	if c.AllowMissing {
+		a.AttrStatements = nil
+	} else if len(a.AttrStatements[0]) > 0 && len(a.AttrStatements[0][0].Values) > 0 {
 		a.AttrStatements[0][0].Values[0] = c08Values[c.AttrVal]
 	} else if c.AttrVal != 0 {
 		a.AttrStatements[0] = append(a.AttrStatements[0], idp.AttrSpec{Name: "special", Values: []string{c08Values[c.AttrVal]}})
 	}
-	if c.TwoStmts {
+	if c.TwoStmts && !c.AllowMissing {
 		a.AttrStatements = append(a.AttrStatements, []idp.AttrSpec{{Name: "second-statement", Values: []string{"s1", "s2"}}})
 	}
-	if c.AttrAttrVal != 0 {
+	if c.AttrAttrVal != 0 && c.AllowMissing {
+		a.SessionIndex = c08AttrVals[c.AttrAttrVal]
+	} else if c.AttrAttrVal != 0 {
 		v := c08AttrVals[c.AttrAttrVal]
 		a.SessionIndex = v
 		a.AttrStatements[0] = append(a.AttrStatements[0], idp.AttrSpec{Name: "named:" + v, FriendlyName: v, NameFormat: v, Values: []string{"v"}})
@@ -199,15 +206,17 @@ func c08Doc(c c08Case) (enc string, want oracle.ResponseT, xml []byte, err error
 	return idp.Encode(xml, spec.Layout.Deflate), want, xml, nil
 }
 
-func c08Conf() world.SPConf { return world.SPConf{Store: []string{"K1", "K3"}} }
+func c08Conf(c c08Case) world.SPConf {
+	return world.SPConf{Store: []string{"K1", "K3"}, AllowMissingAttributes: c.AllowMissing}
+}
 
 func c08Exec(c c08Case) (keys []string, detail, class string) {
 	enc, want, _, err := c08Doc(c)
 	if err != nil {
 		return []string{"HARNESS/lex-transform-not-infoset-preserving"}, err.Error(), "harness-error"
 	}
-	resp, r1 := validateResponse(c08Conf().Build(), enc)
-	info, r2 := retrieveInfo(c08Conf().Build(), enc)
+	resp, r1 := validateResponse(c08Conf(c).Build(), enc)
+	info, r2 := retrieveInfo(c08Conf(c).Build(), enc)
 	detail = fmt.Sprintf("case=%+v | ValidateEncodedResponse accepted=%v err=%q panic=%q | RetrieveAssertionInfo accepted=%v err=%q", c, r1.Accepted(), r1.Err.Text, r1.Panic, r2.Accepted(), r2.Err.Text)
 	if r1.Panic != "" || r2.Panic != "" {
 		return []string{"C08/panic"}, detail, "panic"
@@ -440,6 +449,7 @@ func c08Gen(ch *mc.Chooser) c08Case {
 	c.AttrAttrVal = ch.Choose("attr-attr-val", len(c08AttrVals))
 	c.PrefixList = ch.Bool("prefix-list")
 	c.Wrap64 = ch.Bool("wrap64")
+	c.AllowMissing = ch.Bool("no-attribute-statement")
 	if c.Placement == 2 {
 		c.C14NA = ch.Choose("c14n-assertion", len(idp.AllC14N)+1)
 		if c.N > 1 {
@@ -509,7 +519,7 @@ func c08Cases(r *mc.Run) []c08Case {
 }
 
 func c08Run(r *mc.Run) {
-	r.Rule = "full product signing placement(3) x signature method(4) x digest(4) x canonicaliser(6) on the default document, plus the full product (placement both) Response canonicaliser(6) x assertion canonicaliser(same + 6) x signed comments(3) x 1-2 assertions x which assertions carry their own signature(3) x InclusiveNamespaces list(2), plus every combination of <=2 (quick) / <=3 (thorough) deviations over 30 layout/content dimensions (placement, c14n, a different assertion c14n, partially signed assertions, 4 prefix styles, pretty-printing, DEFLATE, 11 lexical re-layouts, comments in signed text, 1-3 assertions, two AttributeStatements, 6 attribute shapes (incl. one Name on several Attribute elements), 6 AuthnStatement shapes, InResponseTo, 12 NameID strings, 12 attribute-value strings, 7 attribute-valued strings, InclusiveNamespaces prefix list, base64 of digest/signature/certificate wrapped at 64 columns); each lexical re-layout is machine-checked to preserve the parse; non-trivial = accepted and compared field-for-field with the generating spec; distinct = distinct case"
+	r.Rule = "full product signing placement(3) x signature method(4) x digest(4) x canonicaliser(6) on the default document, plus the full product (placement both) Response canonicaliser(6) x assertion canonicaliser(same + 6) x signed comments(3) x 1-2 assertions x which assertions carry their own signature(3) x InclusiveNamespaces list(2), plus every combination of <=2 (quick) / <=3 (thorough) deviations over 31 layout/content dimensions (no AttributeStatement at all with AllowMissingAttributes, placement, c14n, a different assertion c14n, partially signed assertions, 4 prefix styles, pretty-printing, DEFLATE, 11 lexical re-layouts, comments in signed text, 1-3 assertions, two AttributeStatements, 6 attribute shapes (incl. one Name on several Attribute elements), 6 AuthnStatement shapes, InResponseTo, 12 NameID strings, 12 attribute-value strings, 7 attribute-valued strings, InclusiveNamespaces prefix list, base64 of digest/signature/certificate wrapped at 64 columns); each lexical re-layout is machine-checked to preserve the parse; non-trivial = accepted and compared field-for-field with the generating spec; distinct = distinct case"
 	r.Assume("goxmldsig canonicalisers used by the harness signer", "etree parser/canonical writer as harness DOM", "sizes stay below goxmldsig's 1000-element traversal cap")
 	cases := c08Cases(r)
 	r.State(len(cases))
